@@ -996,6 +996,36 @@ def ref_rule(ctx, am):
                 av = inner_lp.target.id
                 if pm.contains('delattr(%s, %s)' % (iv, av), inner_lp) or pm.contains('del %s.__dict__[%s]' % (iv, av), inner_lp):
                     ok = True
+                # EVERY stored copy goes: the only condition on the removal is that a copy is stored at all
+                allowed = {'%s in %s.__dict__' % (av, iv), 'hasattr(%s, %s)' % (iv, av), '%s in vars(%s)' % (av, iv)}
+                negs = {'%s not in %s.__dict__' % (av, iv), 'not hasattr(%s, %s)' % (iv, av)}
+                parents_ = {}
+                for x_ in ast.walk(inner_lp):
+                    for ch_ in ast.iter_child_nodes(x_):
+                        parents_[id(ch_)] = x_
+                for d_ in [n for n in ast.walk(inner_lp) if (isinstance(n, ast.Call) and dotted(n.func) == 'delattr') or
+                           (isinstance(n, ast.Delete) and '__dict__' in src(n))]:
+                    cur_, extra = d_, []
+                    while parents_.get(id(cur_)) is not None and cur_ is not inner_lp:
+                        par_ = parents_[id(cur_)]
+                        if isinstance(par_, ast.If) and cur_ in par_.body:
+                            tests_ = par_.test.values if isinstance(par_.test, ast.BoolOp) and isinstance(par_.test.op, ast.And) else [par_.test]
+                            extra += [src(t_) for t_ in tests_ if src(t_) not in allowed]
+                        if isinstance(par_, ast.If) and cur_ in par_.orelse:
+                            extra += [src(par_.test)] if src(par_.test) not in negs else []
+                        for fld_ in ('body', 'orelse'):
+                            blk_ = getattr(par_, fld_, None)
+                            if isinstance(blk_, list) and cur_ in blk_:
+                                for prev_ in blk_[:blk_.index(cur_)]:
+                                    if isinstance(prev_, ast.If) and prev_.body and isinstance(prev_.body[-1], (ast.Continue, ast.Break, ast.Return)):
+                                        alts_ = prev_.test.values if isinstance(prev_.test, ast.BoolOp) and isinstance(prev_.test.op, ast.Or) else [prev_.test]
+                                        extra += [src(t_) for t_ in alts_ if src(t_) not in negs]
+                        cur_ = par_
+                    r.check(not extra, 'the stored copy of a referential attribute is removed whenever there is one', d_,
+                            construct='xtuml.load:ModelLoader.populate_connections', key='strip-condition',
+                            msg='populate_connections removes the stored copy of a referential attribute only under %s: copies that stay behind '
+                                'are read under every spelling but the declared one (and by where-filters) instead of the value derived from the '
+                                'link' % extra)
     r.check(ok, 'loader deletes every stored referential value after connecting', pc,
             construct='xtuml.load:ModelLoader.populate_connections', key='strip-referentials',
             msg='populate_connections no longer removes stored referential values, so reads would not go through the link')
